@@ -3,6 +3,7 @@ import RbV.Lemmas.Tsv
 import RbV.Lemmas.CsvPlain
 import RbV.Thm.GenSrcBed
 import RbV.Thm.GenSrcGff
+import RbV.Thm.GenSrcGffRead
 /-!
 # C13 — BED and GFF/GTF records survive write → read; comments skipped; malformed lines are errors
 
@@ -284,17 +285,31 @@ theorem bed_roundtrip_source (k : Nat) (self : Gen.SrcBed.Writer) (recs : List G
   rw [bedWriteAll_eq, List.nil_append]
   simpa [fileOf, List.map_map, Function.comp_def, Item.line] using h
 
+/-- what `sort…` on a list of key groups is read as: some permutation of it (whatever the comparison) -/
+abbrev PermOp := List (List Nat × List (List Nat)) → List (List Nat × List (List Nat))
+
+/-- the model records a source record may be written as: the same columns, the attribute key groups in some order -/
+def GffWrittenAs (r : Gen.SrcGff.Record) (m : GffRec) : Prop :=
+  ∃ g', g'.Perm r.attributes ∧ m = { GenSrcGff.toModel r with attrs := g' }
+
+/-- record by record -/
+inductive AllWrittenAs : List Gen.SrcGff.Record → List GffRec → Prop
+  | nil : AllWrittenAs [] []
+  | cons {r m rs ms} : GffWrittenAs r m → AllWrittenAs rs ms → AllWrittenAs (r :: rs) (m :: ms)
+
 /-- **`gff::Writer::write` as written** (hard: what the property determines).  For a writer configured for dialect `d` the bytes
 appended are `gffLine d` of the record — the nine columns, the attribute column assembled with the dialect's delimiters (values
 of a key joined by the value delimiter for GFF3, the key repeated for GFF2/GTF2) — **up to the order of the key groups**: the
-attribute list of the model record is a permutation of the map's groups (the witness is the map's own iteration order, see
-`GenSrcGff.write_eq_model` for the exact form); per-key value order is fixed. -/
-theorem gff_write_source_eq_model (w : List Nat) (d : Dialect) (self : Gen.SrcGff.Writer) (r : Gen.SrcGff.Record)
+attribute list of the model record is a permutation of the map's groups (the map's own iteration order when the text does not
+sort, `GenSrcGffExact.write_eq_model`, a soft module; the sorted order when it does — `perm` is what a `sort…` call of the text is read as, any
+permuting function); per-key value order is fixed. -/
+theorem gff_write_source_eq_model (perm : PermOp) (hperm : ∀ l, (perm l).Perm l) (w : List Nat) (d : Dialect)
+    (self : Gen.SrcGff.Writer) (r : Gen.SrcGff.Record)
     (hw : GenSrcGff.WriterFor d self) (hg : ∀ kv ∈ r.attributes, kv.2 ≠ []) :
-    ∃ g', g'.Perm r.attributes ∧
-      Gen.SrcGff.write csvSerialize toDec w self r
-        = (.ok (), w ++ (gffLine d { GenSrcGff.toModel r with attrs := g' } ++ [LF])) :=
-  ⟨r.attributes, List.Perm.refl _, GenSrcGff.write_eq_model w d self r hw hg⟩
+    ∃ m, GffWrittenAs r m ∧
+      Gen.SrcGff.write csvSerialize toDec perm w self r = (.ok (), w ++ (gffLine d m ++ [LF])) := by
+  obtain ⟨g', hp, h⟩ := GenSrcGff.write_fields_perm csvSerialize perm hperm w d self r hw hg
+  exact ⟨_, ⟨g', hp, rfl⟩, by rw [h]; rfl⟩
 
 /-- **`GffType::separator` as written** gives the dialects of the model, and the writers built from it are configured for them -/
 theorem gff_type_separator_source_eq_model :
@@ -305,42 +320,132 @@ theorem gff_type_separator_source_eq_model :
   ⟨GenSrcGff.separator_eq_model, GenSrcGff.writerFor_gff3, GenSrcGff.writerFor_gff2, GenSrcGff.writerFor_gtf2⟩
 
 /-- the records written one after the other through the translated GFF writer, starting from the sink `w` -/
-def gffWriteAll (self : Gen.SrcGff.Writer) : List Gen.SrcGff.Record → List Nat → List Nat
+def gffWriteAll (perm : PermOp) (self : Gen.SrcGff.Writer) : List Gen.SrcGff.Record → List Nat → List Nat
   | [], w => w
-  | r :: rs, w => gffWriteAll self rs (Gen.SrcGff.write csvSerialize toDec w self r).2
+  | r :: rs, w => gffWriteAll perm self rs (Gen.SrcGff.write csvSerialize toDec perm w self r).2
 
-theorem gffWriteAll_eq (d : Dialect) (self : Gen.SrcGff.Writer) (hw : GenSrcGff.WriterFor d self)
+theorem gffWriteAll_eq (perm : PermOp) (hperm : ∀ l, (perm l).Perm l) (d : Dialect) (self : Gen.SrcGff.Writer)
+    (hw : GenSrcGff.WriterFor d self)
     (recs : List Gen.SrcGff.Record) (hg : ∀ r ∈ recs, ∀ kv ∈ r.attributes, kv.2 ≠ []) (w : List Nat) :
-    gffWriteAll self recs w = w ++ render (recs.map fun r => gffLine d (GenSrcGff.toModel r)) := by
+    ∃ ms, AllWrittenAs recs ms ∧ gffWriteAll perm self recs w = w ++ render (ms.map (gffLine d)) := by
   induction recs generalizing w with
-  | nil => simp [gffWriteAll, render]
+  | nil => exact ⟨[], .nil, by simp [gffWriteAll, render]⟩
   | cons r rs ih =>
-    have h1 := GenSrcGff.write_eq_model w d self r hw (hg r (by simp))
-    simp [gffWriteAll, ih (fun s hs => hg s (List.mem_cons_of_mem _ hs)), h1, render]
+    obtain ⟨m, hm, h1⟩ := gff_write_source_eq_model perm hperm w d self r hw (hg r (by simp))
+    obtain ⟨ms, hms, h2⟩ := ih (fun s hs => hg s (List.mem_cons_of_mem _ hs)) (w ++ (gffLine d m ++ [LF]))
+    refine ⟨m :: ms, .cons hm hms, ?_⟩
+    simp [gffWriteAll, h1, h2, render]
+
+theorem GffWrittenAs.ok {d : Dialect} {r : Gen.SrcGff.Record} {m : GffRec} (h : GffWrittenAs r m)
+    (hr : GffOk d (GenSrcGff.toModel r)) : GffOk d m := by
+  obtain ⟨g', hp, rfl⟩ := h
+  obtain ⟨h1, h2, h3, h4, h5⟩ := hr
+  refine ⟨?_, h2, h3, h4, fun kv hkv => h5 kv (hp.mem_iff.mp hkv)⟩
+  simpa [gffFields, hashStart] using h1
 
 /-- **GFF/GTF round trip through the writer as written**: the model reader on the bytes the translated writer produces for any
-list of records of the domain returns every record — all columns, and every attribute key with all of its values in order
-(`asRead`: the (key, value) pairs group by group; which group comes first is the map's iteration order and carries no
-information — `gff_roundtrip_source_lookup`) -/
-theorem gff_roundtrip_source (d : Dialect) (hd : d = gff3 ∨ d = gff2) (self : Gen.SrcGff.Writer)
-    (hw : GenSrcGff.WriterFor d self) (recs : List Gen.SrcGff.Record)
+list of records of the domain returns every record — all columns, and every attribute key with all of its values in order; the
+key groups come in the order the writer emitted them (some permutation of the map's groups, `GffWrittenAs`), which carries no
+information — `gff_roundtrip_source_lookup` -/
+theorem gff_roundtrip_source (perm : PermOp) (hperm : ∀ l, (perm l).Perm l) (d : Dialect) (hd : d = gff3 ∨ d = gff2)
+    (self : Gen.SrcGff.Writer) (hw : GenSrcGff.WriterFor d self) (recs : List Gen.SrcGff.Record)
     (hrecs : ∀ r ∈ recs, GffOk d (GenSrcGff.toModel r)) :
-    readGff d (gffWriteAll self recs []) = recs.map fun r => Res.ok (GenSrcGff.toModel r).asRead := by
+    ∃ ms, AllWrittenAs recs ms ∧
+      readGff d (gffWriteAll perm self recs []) = ms.map fun m => Res.ok m.asRead := by
   have hg : ∀ r ∈ recs, ∀ kv ∈ r.attributes, kv.2 ≠ [] := fun r hr kv hkv => ((hrecs r hr).attrsOk kv hkv).2.1
-  have h := gff_roundtrip d hd (recs.map GenSrcGff.toModel)
-    ((recs.map GenSrcGff.toModel).map fun r => Item.record (gffLine d r))
-    (by intro r hr; obtain ⟨s, hs, rfl⟩ := List.mem_map.mp hr; exact hrecs s hs)
+  obtain ⟨ms, hms, hb⟩ := gffWriteAll_eq perm hperm d self hw recs hg []
+  refine ⟨ms, hms, ?_⟩
+  have hok : ∀ m ∈ ms, GffOk d m := by
+    clear hb hg
+    induction hms with
+    | nil => intro m hm; simp at hm
+    | cons h _ ih =>
+      intro m hm
+      rcases List.mem_cons.mp hm with rfl | hm
+      · exact h.ok (hrecs _ (by simp))
+      · exact ih (fun r hr => hrecs r (List.mem_cons_of_mem _ hr)) m hm
+  have h := gff_roundtrip d hd ms (ms.map fun r => Item.record (gffLine d r)) hok
     (by simp [List.filterMap_map, Function.comp_def, Item.rec?])
     (by intro t ht; simp at ht)
-  rw [gffWriteAll_eq d self hw recs hg, List.nil_append]
+  rw [hb, List.nil_append]
   simpa [fileOf, List.map_map, Function.comp_def, Item.line] using h
 
 /-- … in the multimap view, which does not depend on the order of the key groups: looking a key of the record up in what was read
-back gives its value list -/
-theorem gff_roundtrip_source_lookup (r : Gen.SrcGff.Record) (hkeys : (r.attributes.map (·.1)).Nodup)
+back (whatever order the writer chose) gives its value list -/
+theorem gff_roundtrip_source_lookup (r : Gen.SrcGff.Record) (m : GffRec) (hm : GffWrittenAs r m)
+    (hkeys : (r.attributes.map (·.1)).Nodup)
     (k : List Nat) (vs : List (List Nat)) (hmem : (k, vs) ∈ r.attributes) :
-    valuesOf (GenSrcGff.toModel r).asRead.pairs k = vs :=
-  valuesOf_flatPairs r.attributes hkeys k vs hmem
+    valuesOf m.asRead.pairs k = vs := by
+  obtain ⟨g', hp, rfl⟩ := hm
+  exact valuesOf_flatPairs g' ((hp.map (·.1)).nodup_iff.mpr hkeys) k vs (hp.mem_iff.mpr hmem)
+
+/-- **`bed::Record::set_name` / `set_score` as written**: name and score are the auxiliary columns 0 and 1 (pushed when missing — a
+missing name is filled with the empty string —, overwritten otherwise; no panic), and `name()` / `score()` read them back -/
+theorem bed_record_name_score_setters_source_eq_model (r : Gen.SrcBed.Record) (x : List Nat) :
+    (Gen.SrcBed.setName r x = .ok { r with aux := if r.aux.isEmpty then [x] else r.aux.set 0 x } ∧
+      ∀ r', Gen.SrcBed.setName r x = .ok r' → Gen.SrcBed.name r' = .ok (some x)) ∧
+    (Gen.SrcBed.setScore r x = .ok { r with aux := match r.aux with
+        | [] => [[], x]
+        | [a] => [a, x]
+        | a :: _ :: rest => a :: x :: rest } ∧
+      ∀ r', Gen.SrcBed.setScore r x = .ok r' → Gen.SrcBed.score r' = .ok (some x)) :=
+  ⟨⟨GenSrcBed.setName_eq_model r x, fun r' h => GenSrcBed.name_setName r r' x h⟩,
+   ⟨GenSrcBed.setScore_eq_model r x, fun r' h => GenSrcBed.score_setScore r r' x h⟩⟩
+
+/-- **`gff::Writer::new` as written** (the csv builder chain `delimiter(b'\t').flexible(true).from_writer(..)` is pinned by the
+translation spec): for GFF3, GFF2 and GTF2 the constructor does not panic and the writer it returns is configured for the model's
+dialect (`WriterFor`) — the hypothesis of `gff_write_source_eq_model` / `gff_roundtrip_source` discharged from the text; for
+`Any(x, y, z)` it panics exactly when the terminator `y` is not ASCII -/
+theorem gff_writer_new_source_eq_model :
+    (∃ w, Gen.SrcGff.writerNew .GFF3 = .ok w ∧ GenSrcGff.WriterFor gff3 w) ∧
+    (∃ w, Gen.SrcGff.writerNew .GFF2 = .ok w ∧ GenSrcGff.WriterFor gff2 w) ∧
+    (∃ w, Gen.SrcGff.writerNew .GTF2 = .ok w ∧ GenSrcGff.WriterFor gff2 w) ∧
+    (∀ x y z, Gen.SrcGff.writerNew (.Any x y z) = if y < 128 then .ok ⟨x, [y], z⟩ else .panic) := by
+  refine ⟨⟨_, ?_, GenSrcGff.writerFor_gff3⟩, ⟨_, ?_, GenSrcGff.writerFor_gff2⟩, ⟨_, ?_, GenSrcGff.writerFor_gtf2⟩, ?_⟩
+  · rw [GenSrcGff.writerNew_eq_model]; rfl
+  · rw [GenSrcGff.writerNew_eq_model]; rfl
+  · rw [GenSrcGff.writerNew_eq_model]; rfl
+  · intro x y z; rw [GenSrcGff.writerNew_eq_model]; rfl
+
+/-- **`impl Deserialize for Phase` as written refines the model reader's `readPhase`** (the column as a string; `u8::from_str` =
+`Rs.parseU8`): `ok p` of the model is `Ok(Phase(p))` of the code, an error of the model is `Err` of the code; spellings the property
+leaves open (`+1`, `01`) are not constrained -/
+theorem gff_phase_source_refines_model (s : List Nat) :
+    (∀ p, readPhase s = .ok p → Gen.SrcGffRead.phaseDeserialize s = .ok p) ∧
+    (∀ w, readPhase s = .err w → Gen.SrcGffRead.phaseDeserialize s = .error ()) :=
+  GenSrcGffRead.phaseDeserialize_refines_model s
+
+/-- **a numeric phase of three or more is an error — of the code as written** (`phase_ge3_is_error` is the model side; the old
+finding `C13-gff-phase-ge3` cannot come back unnoticed), and the written phase column (`.`, 0, 1, 2) is read back -/
+theorem phase_ge3_is_error_source (n : Nat) (h : 3 ≤ n) : Gen.SrcGffRead.phaseDeserialize (toDec n) = .error () :=
+  GenSrcGffRead.phaseDeserialize_ge3 n h
+
+theorem phase_roundtrip_source (p : Option Nat) (h : ∀ n, p = some n → n < 3) :
+    Gen.SrcGffRead.phaseDeserialize (phaseStr p) = .ok p :=
+  GenSrcGffRead.phaseDeserialize_phaseStr p h
+
+/-- **the record closure of `gff::Records::next` as written = the record of the model reader**: given the nine deserialised
+columns, the code builds exactly the record `parseGffFields d` builds in its `ok` branch — the attribute column is split and trimmed
+as `parseAttrs d` does (every capture split on the value delimiter, `'` then `"` trimmed from key and values, pairs inserted in
+order).  The captures of the regular expression are abstract, instantiated with the model's scanner `scan` (trusted reading of
+the expression); the reader's `MultiMap` is read as its insertion sequence. -/
+theorem gff_record_closure_source_eq_model (d : Dialect) (hv : d.vdelim < 128) (self : Gen.SrcGffRead.Records)
+    (hs : self.value_delim = d.vdelim) (a b c : List Nat) (x y : Nat) (sc st : List Nat) (p : Option Nat) (att : List Nat) :
+    GenSrcGffRead.toRead (Gen.SrcGffRead.recordOfColumns (fun s => scan d (s.length + 1) s) self a b c x y sc st p att)
+      = ⟨a, b, c, x, y, sc, st, p, parseAttrs d att⟩ :=
+  GenSrcGffRead.recordOfColumns_eq_model d hv self hs a b c x y sc st p att
+
+/-- … hence on a line the model reads as `ok R`, the translated phase deserialiser and record closure produce `R` -/
+theorem gff_read_line_source_eq_model (d : Dialect) (hv : d.vdelim < 128) (self : Gen.SrcGffRead.Records)
+    (hs : self.value_delim = d.vdelim) (a b c s e sc st ph att : List Nat) (R : GffRead)
+    (h : parseGffFields d [a, b, c, s, e, sc, st, ph, att] = .ok R) :
+    ∃ x y p, readU64 s = .ok x ∧ readU64 e = .ok y ∧ Gen.SrcGffRead.phaseDeserialize ph = .ok p ∧
+      GenSrcGffRead.toRead (Gen.SrcGffRead.recordOfColumns (fun t => scan d (t.length + 1) t) self a b c x y sc st p att) = R := by
+  unfold parseGffFields at h
+  cases hs' : readU64 s <;> cases he : readU64 e <;> cases hp : readPhase ph <;> simp [hs', he, hp] at h
+  next x y p =>
+    exact ⟨x, y, p, rfl, rfl, (GenSrcGffRead.phaseDeserialize_refines_model ph).1 p hp,
+      by rw [GenSrcGffRead.recordOfColumns_eq_model d hv self hs]; exact h⟩
 
 -- non-vacuity: a GFF3 writer, a record with a two-valued key
 example : GenSrcGff.WriterFor gff3 (GenSrcGff.writerOf .GFF3) := GenSrcGff.writerFor_gff3
